@@ -319,6 +319,10 @@ class Server:
                 if not self._pipeline_notfull.wait(
                     t0 + timeout * 0.99 - perf_counter()
                 ):
+                    # A waiter that is timing out can still absorb the (single) notification
+                    # of a freed slot. Pass the wake-up on before giving up, otherwise another
+                    # waiting caller is never woken although the server has room.
+                    self._pipeline_notfull.notify()
                     raise ServerBacklogFull(len(pipeline), perf_counter() - t0)
 
             # Record the request in the ledger before publishing it: the gather thread
